@@ -341,10 +341,8 @@ theorem spec_byteswap_eq (l : Bits) (f : Fmt) (s e : Option Int) (rep : Bool) (a
       unfold kOf; rw [if_neg h0]
     rw [hk]
 
-theorem alg_byteswap_eq (l : Bits) (f : Fmt) (s e : Option Int) (rep : Bool)
-    (h : byteswapNoRepeatPastEnd l f s e rep = false) :
+theorem alg_byteswap_eq (l : Bits) (f : Fmt) (s e : Option Int) (rep : Bool) :
     Alg.byteswap l f s e rep = Spec.byteswap l f s e rep := by
-  unfold byteswapNoRepeatPastEnd at h
   cases hv : validateSlice l.length s e with
   | error err => unfold Alg.byteswap Spec.byteswap; rw [hv]
   | ok p =>
@@ -354,10 +352,6 @@ theorem alg_byteswap_eq (l : Bits) (f : Fmt) (s e : Option Int) (rep : Bool)
     | error err => unfold Alg.byteswap Spec.byteswap; rw [hv]; simp only; rw [hf]
     | ok sizes =>
       rw [spec_byteswap_eq l f s e rep a z sizes hv hf]
-      rw [hv] at h
-      simp only at h
-      rw [hf] at h
-      simp only at h
       unfold Alg.byteswap
       rw [hv]
       simp only
@@ -370,7 +364,7 @@ theorem alg_byteswap_eq (l : Bits) (f : Fmt) (s e : Option Int) (rep : Bool)
         simp only [Nat.zero_mul, Nat.add_zero, Spec.swapRepeat, slc_self, List.append_nil, List.take_append_drop]
       · rw [if_neg h0]
         have hcnt : Py.rangeLen ((a + 8 * sizes.sum : Nat) : Int)
-            (((if rep = true then z else a + 8 * sizes.sum) + 1 : Nat) : Int) ((8 * sizes.sum : Nat) : Int) =
+            (((if rep = true then z else min (a + 8 * sizes.sum) z) + 1 : Nat) : Int) ((8 * sizes.sum : Nat) : Int) =
             kOf (8 * sizes.sum) a z rep := by
           rw [rangeLen_count _ _ _ (by omega)]
           unfold kOf
@@ -378,11 +372,10 @@ theorem alg_byteswap_eq (l : Bits) (f : Fmt) (s e : Option Int) (rep : Bool)
           cases rep with
           | true => simp
           | false =>
-            have hfit : a + 8 * sizes.sum ≤ z := by
-              simp [h0] at h
-              omega
-            simp only [Bool.false_eq_true, if_false, if_pos hfit]
-            rw [Nat.add_sub_cancel_left, Nat.div_self (by omega)]
+            simp only [Bool.false_eq_true, if_false]
+            by_cases hfit : a + 8 * sizes.sum ≤ z
+            · rw [if_pos hfit, Nat.min_eq_left hfit, Nat.add_sub_cancel_left, Nat.div_self (by omega)]
+            · rw [if_neg hfit, Nat.min_eq_right (by omega), Nat.div_eq_of_lt (by omega)]
         rw [hcnt]
         have hle := kOf_mul_le (8 * sizes.sum) a z rep
         rw [swapLoop_eq _ l sizes a (by omega)]
